@@ -4,6 +4,7 @@ mod access_mode;
 mod cache_mode;
 mod kinds;
 mod serde_mode;
+mod seq_mode;
 mod prog;
 mod rng;
 mod sched;
@@ -254,6 +255,46 @@ fn main() {
             for l in cache_mode::run(seed, count) {
                 println!("{}", l);
             }
+        }
+        "seq" => {
+            // every program under the three strategies; `--ops-file` replays given programs
+            let seed: u64 = get("--seed").and_then(|s| s.parse().ok()).unwrap_or(1);
+            let count: usize = get("--count").and_then(|s| s.parse().ok()).unwrap_or(200);
+            let mut progs: Vec<(u64, Vec<prog::Op>)> = vec![];
+            if let Some(f) = get("--ops-file") {
+                for l in std::fs::read_to_string(&f).unwrap().lines() {
+                    if let Some(r) = l.strip_prefix("ops ") {
+                        progs.push((0, r.split(';').filter(|x| !x.trim().is_empty()).map(|x| prog::Op::parse(x).expect("op parses")).collect()));
+                    }
+                }
+            } else {
+                for k in 0..count {
+                    let s = seed.wrapping_mul(1_000_003).wrapping_add(k as u64);
+                    progs.push((s, seq_mode::generate(&mut Rng::new(s))));
+                }
+            }
+            let stdout = std::io::stdout();
+            let mut out = std::io::BufWriter::new(stdout.lock());
+            for (k, (s, ops)) in progs.iter().enumerate() {
+                writeln!(out, "prog {} seed={}", k, s).unwrap();
+                writeln!(out, "ops {}", ops.iter().map(|o| o.text()).collect::<Vec<_>>().join(" ; ")).unwrap();
+                for st in 0..3 {
+                    writeln!(out, "strategy {}", st).unwrap();
+                    let lines = match st {
+                        0 => seq_mode::run_prog::<DefaultStrategy>(ops),
+                        #[allow(deprecated)]
+                        1 => seq_mode::run_prog::<FillFastSlots>(ops),
+                        #[allow(deprecated)]
+                        _ => seq_mode::run_prog::<std::sync::RwLock<()>>(ops),
+                    };
+                    for l in lines {
+                        writeln!(out, "{}", l).unwrap();
+                    }
+                    writeln!(out, "endstrategy").unwrap();
+                }
+                writeln!(out, "endprog").unwrap();
+            }
+            out.flush().unwrap();
         }
         "kinds" => {
             for l in kinds::run() {
